@@ -685,6 +685,34 @@ fn gen_deep(rng: &mut Rng) -> Scn {
     Scn { guest, events, cfg, timer_irqs: false, preload: vec![] }
 }
 
+/// For a few instructions the stack pointer is 0xffff21-0xffff23: a frame pushed there straddles the end of on-chip RAM
+/// (its upper bytes land in the I/O register block behind it, which is mapped). Requests arrive exactly then.
+fn gen_edge_sp(rng: &mut Rng) -> Scn {
+    let nvec = rng.range(1, 3) as usize;
+    let mut pool: Vec<u8> = (1..=63u8).filter(|v| !(9..=11).contains(v)).collect();
+    rng.shuffle(&mut pool);
+    let handlers: Vec<Handler> = pool.iter().take(nvec).map(|v| Handler { vector: *v, kind: if rng.chance(1, 2) { HandlerKind::Empty } else { HandlerKind::Count }, at_zero: false }).collect();
+    let vectors: Vec<u8> = handlers.iter().map(|h| h.vector).collect();
+    let sp = 0x00ff_ff20u32 + rng.range(0, 3) as u32;
+    let mut switch = vec![0x0f, 0xf6, 0x7a, 0x07];
+    switch.extend_from_slice(&sp.to_be_bytes());
+    let blocks = vec![
+        Block::SetCcr(rng.u8() & 0x7f),
+        Block::Raw(switch),            // MOV.L ER7,ER6 ; MOV.L #sp,ER7
+        Block::Delay(rng.range(2, 8) as u16),
+        Block::Raw(vec![0x0f, 0xe7]),  // MOV.L ER6,ER7
+        Block::SetCcr(0x00),
+        Block::Delay(24),
+    ];
+    let guest = GuestSpec { blocks, handlers, code_dram: rng.chance(1, 3), stack_dram: rng.chance(1, 3), data_dram: rng.chance(1, 3), vec_top: rng.u8(), sub_delay: 1, init_ccr: None, stack_off: 0, exit_style: 0 };
+    let mut events = vec![Event { trig: Trigger::AtBlock { block: 2, nth: 0 }, act: if rng.chance(1, 2) { Action::Irq(*rng.pick(&vectors)) } else { Action::Burst((0..rng.range(2, 3)).map(|_| *rng.pick(&vectors)).collect()) } }];
+    if rng.chance(1, 2) {
+        events.push(Event { trig: Trigger::Iter(rng.below(40)), act: Action::Irq(*rng.pick(&vectors)) });
+    }
+    let cfg = SysCfg { wait_start: false, clock: gen_clock_model(rng), clock_seed: rng.next_u64(), step_cap: 60_000, print_msgs: false, print_opcode: false };
+    Scn { guest, events, cfg, timer_irqs: false, preload: vec![] }
+}
+
 /// More than 2^20 requests outstanding at once (one vector, an empty handler).
 fn gen_giant_flood(rng: &mut Rng) -> Scn {
     let v = rng.range(12, 63) as u8;
@@ -703,6 +731,10 @@ pub fn generate(rng: &mut Rng, tier: Tier, frames: bool, index: u64) -> Scn {
     }
     if rng.chance(1, 60) {
         return gen_deep(rng);
+    }
+    if frames && rng.chance(1, 80) {
+        // C06 only: C10's twin comparison sets the ordinary stack aside, not these few bytes at the end of RAM
+        return gen_edge_sp(rng);
     }
     let use_traps = rng.chance(if frames { 2 } else { 1 }, 3);
     let nvec = rng.range(1, 7) as usize;
